@@ -27,6 +27,8 @@ def run(ctx: C.Ctx):
     # repaired defects (kind "fixed" in known_findings) suppress nothing: their witnesses are replayed before anything
     # else, so that a defect that returned is the first VIOLATION and its replay is the witness
     ctx.c01_fixed_replayed = importlib.import_module("harness.props.c01_stmt").replay_fixed(ctx)
+    if "C01_expr" in UNITS:
+        importlib.import_module("harness.props.c01_expr").replay_fixed(ctx)
     for u in UNITS:
         mod = importlib.import_module("harness.props." + u.lower())
         r = mod.run_unit(ctx) or {}
